@@ -243,6 +243,9 @@ func runC36(c *Ctx) error {
 	if err := c36busy(c); err != nil {
 		return err
 	}
+	if err := c36evicted(c); err != nil {
+		return err
+	}
 	return c36dynamic(c)
 }
 
@@ -288,6 +291,74 @@ func c36select(rs c36rules, nets []int, cid string, nodeOf map[int]int, ai int) 
 		}
 	}
 	return "defaultmap", rs.defmap
+}
+
+// an address that was bound to a node and then pushed out of the pool by newer addresses (MaxAddrs) is a stranger
+// when it comes back: without a new challenge it is served by the default map, not by the node's rule
+func c36evicted(c *Ctx) error {
+	trials := 2
+	if c.Thorough() {
+		trials = 10
+	}
+	for i := 0; i < trials; i++ {
+		node := base.RandomAddress("n-")
+		args := launch.NewRateLimitHandlerArgs()
+		args.ExpireAddr = 10 * time.Minute
+		args.ShrinkInterval = 15 * time.Millisecond
+		args.MaxAddrs = uint64(1 + c.Intn(3))
+		args.Rules = launch.NewRateLimiterRules()
+		if err := args.Rules.SetNodeRuleSet(launch.NewNodeRateLimiterRuleSet(map[string]launch.RateLimiterRuleMap{node.String(): c36map(3000)})); err != nil {
+			return err
+		}
+		if err := args.Rules.SetDefaultRuleMap(c36map(5000)); err != nil {
+			return err
+		}
+		h, err := launch.NewRateLimitHandler(args)
+		if err != nil {
+			return err
+		}
+		if err := h.Start(context.Background()); err != nil {
+			return err
+		}
+		ask := func(addr net.Addr) string {
+			ctx := context.WithValue(context.Background(), launch.RateLimiterLimiterNameContextKey, "h")
+			var res launch.RateLimiterResult
+			_, _ = h.Func(ctx, addr, func(ctx context.Context) (context.Context, error) {
+				if f, ok := ctx.Value(launch.RateLimiterResultContextKey).(func() launch.RateLimiterResult); ok {
+					res = f()
+				}
+				return ctx, nil
+			})
+			return res.RulesetType + "/" + strings.SplitN(res.Limiter, "/", 2)[0]
+		}
+		a := &net.UDPAddr{IP: net.IPv4(10, 7, byte(i), 1), Port: 1000}
+		first := ask(a)
+		bound := h.AddNode(a, node)
+		asNode := ask(a)
+		// newer addresses, more than the pool keeps
+		var others []*net.UDPAddr
+		for j := 0; j < int(args.MaxAddrs)+3; j++ {
+			o := &net.UDPAddr{IP: net.IPv4(10, 8, byte(i), byte(j+1)), Port: 2000 + j}
+			others = append(others, o)
+			_ = ask(o)
+			time.Sleep(2 * time.Millisecond)
+		}
+		time.Sleep(6 * args.ShrinkInterval)
+		// the oldest of the newer addresses is gone too (AddNode only binds an address the pool knows): then so is `a`
+		gone := !h.AddNode(others[0], base.RandomAddress("x-"))
+		back := ask(a)
+		_ = h.Stop()
+		c.Eval(1)
+		c.Count("evicted-address", fmt.Sprintf("first=%s bound=%v node=%s evicted=%v back=%s", first, bound, asNode, gone, back))
+		if !bound || asNode != "node/3000" || !gone {
+			continue // the scenario did not come about (no violation is claimed)
+		}
+		if back != "defaultmap/5000" {
+			c.Violation("C36:evicted-address-keeps-its-node", fmt.Sprintf("MaxAddrs %d: an address bound to a node (served by %s), pushed out of the pool by %d newer addresses, is served by %s when it comes back without a challenge; the default map (defaultmap/5000) applies to an unknown address",
+				args.MaxAddrs, asNode, len(others), back), map[string]interface{}{"max_addrs": args.MaxAddrs, "newer_addresses": len(others)})
+		}
+	}
+	return nil
 }
 
 // a busy address under the running handler (its shrink ticker drops addresses that were idle for ExpireAddr): an
